@@ -140,6 +140,15 @@ def install():
     for name in list(logging.root.manager.loggerDict):
         if name.startswith(SDK):
             logging.getLogger(name).disabled = True
+    _prev_hook = sys.unraisablehook
+
+    def _hook(unraisable):
+        from dexsim.sim import SimKilled
+        if isinstance(unraisable.exc_value, SimKilled):
+            return
+        _prev_hook(unraisable)
+
+    sys.unraisablehook = _hook
     _installed = True
 
 
